@@ -128,6 +128,11 @@ class Recorder:
             if k is not None:
                 self.known_hits[k["key"]] += 1
                 return None
+            if os.environ.get("VERIF_COLLECT"):
+                # exploration aid (never set by a registered command): keep the first case of every violation key and go on searching behind it
+                if v.key not in [x[0] for x in self.violations]:
+                    self.violation(v)
+                return None
             raise
 
     def violation(self, v):
